@@ -682,6 +682,14 @@ class FuncAnalyzer(ast.NodeVisitor):
             return kwv[name]
         return {IMM}
 
+    def memoised(self, fi):
+        """functools.lru_cache / cache (or any *cache* decorator): calls write a shared table and hand out shared objects."""
+        for d in fi.node.decorator_list:
+            t = ast.unparse(d)
+            if "cache" in t.lower():
+                return True
+        return False
+
     def apply(self, q, e, argv, kwv, fnode):
         self.sum.calls.add(q)
         s = self.an.summaries.get(q)
@@ -689,6 +697,13 @@ class FuncAnalyzer(ast.NodeVisitor):
             return {FRESH}
         fi = self.an.funcs[q]
         self.import_effects(q, e, argv, kwv)
+        if self.memoised(fi):
+            tag = ("global", fi.mod.name, fi.node.name + "@memo")
+            self.an.global_kind[tag] = "mutable"
+            self.mutate({tag}, e, "memoising decorator on %s" % fi.node.name)
+            self.sum.direct_globals.add(tag)
+            if any(t not in (IMM,) for t in s.ret):
+                return {tag}
         out = set()
         for t in s.ret:
             if t[0] == "param":
